@@ -489,8 +489,24 @@ def rule_R09_4(ctx):
     return r
 
 
+def rule_R09_5(ctx):
+    import units
+    r = units.rule_units(ctx, "R09.5")
+    r.title = ("comments and whitespace are skipped by exactly their own extent: "
+               "byte offsets and character counts are never mixed in the lexer")
+    r.necessary_for = ("a comment skipped by a byte length counted in characters "
+                       "(or the reverse) swallows the line terminator after it: "
+                       "the text of a comment then changes the program")
+    keep = [v for v in r.violations if "lexer" in v.key]
+    r.obligations -= len(r.violations) - len(keep)
+    r.violations = keep
+    for v in r.violations:
+        v.rule = "R09.5"
+    return r
+
+
 def run(ctx):
-    return [rule_R09_1(ctx), rule_R09_2(ctx), rule_R09_3(ctx), rule_R09_4(ctx)]
+    return [rule_R09_1(ctx), rule_R09_2(ctx), rule_R09_3(ctx), rule_R09_4(ctx), rule_R09_5(ctx)]
 
 
 META = {
